@@ -53,4 +53,7 @@ def jobs(tier):
                          bounded="object array of %d slots, registry max id %d (sizes enumerated, <= 3; slot contents, addressed id and values symbolic)" % (known, maxid),
                          functions=["parsec_ioa_resize_and_rdlock", "parsec_info_set", "parsec_info_get", "parsec_info_test_and_set"],
                          timeout=900, mem_gb=8, min_obligations=6))
+    J.append(Job("get_default.rg", "h_info.c", entry="h_get_default", unwind=8, unwindset=US, defines={"NREG": 1},
+                 bounded="one registered info, object array of one slot (the constructor path does not depend on the sizes)",
+                 functions=["parsec_info_get", "parsec_info_test_and_set", "parsec_info_lookup_by_iid"], timeout=900, mem_gb=8, min_obligations=4))
     return J
